@@ -32,6 +32,8 @@ pub struct UCfg {
     /// cursor of the pre-state (concrete per harness: a symbolic cursor makes
     /// every access to the polled group go through a symbolic pointer)
     pub cursor: usize,
+    /// per group: at most this many ready-queue entries in the pre-state
+    pub qmax: [usize; MAXG],
 }
 
 pub struct UPre {
@@ -54,7 +56,7 @@ pub fn gen_upre(c: &UCfg) -> UPre {
     }
     // all groups share the registration status of "the last poll" only through
     // their own state: every group has its own waker list
-    let p0 = fub::gen_pre(c.caps[0], false);
+    let p0 = fub::gen_pre_q(c.caps[0], false, c.qmax[0]);
     let mut pre = UPre {
         n: c.n,
         caps: c.caps,
@@ -65,12 +67,17 @@ pub fn gen_upre(c: &UCfg) -> UPre {
     };
     let mut k = 1;
     while k < c.n {
-        pre.g[k] = fub::gen_pre(c.caps[k], false);
+        pre.g[k] = fub::gen_pre_q(c.caps[k], false, c.qmax[k]);
         k += 1;
     }
     let mut k = 0;
     while k < c.n {
-        fub::gen_ghost_b(&pre.g[k], k, base[k]);
+        if c.qmax[k] < 8 {
+            fub::gen_ghost_b(&pre.g[k], k, base[k]);
+        } else if pre.g[k].filled > 0 {
+            // concrete group: its one child was polled before and sleeps
+            g().polls[base[k]] = 1;
+        }
         pre.rem += pre.g[k].filled;
         k += 1;
     }
@@ -190,6 +197,7 @@ pub fn step_poll(c: &UCfg) {
     let (post, n2, rem2, cursor2) = post_groups(&mut f, c, &pre, t);
     check_post_inv(c, &pre, &post, n2, rem2, cursor2, 0);
     vassert!(n2 <= pre.n, "C18:a poll created a group");
+    vcover!(n2 < pre.n, "cover:group_discarded");
     vassert!(n2 >= 1, "C18:a poll discarded the last (largest) group");
     vassert!(post[c.n - 1].present, "C18:a poll discarded the largest group");
 
@@ -247,11 +255,12 @@ pub fn step_poll(c: &UCfg) {
                             while q < c.caps[k] {
                                 if q < s.qlen {
                                     vassert!(!occ[s.q[q].slot % MAXS], "C01:Pending with a queued held child left un-polled, task not woken");
+                                    vassert!(!occ[s.q[q].slot % MAXS], "C02:Pending with a queued held future left un-polled and nobody told: its output will never be yielded");
                                 }
                                 q += 1;
                             }
                         }
-                        if c.quiet {
+                        if c.quiet || gh.child_wakes == 0 {
                             vassert!(!woken_t, "C14:task woken although no child waker was invoked");
                         }
                     }
@@ -354,6 +363,16 @@ pub fn step_push(c: &UCfg) {
         vassert!(groups[n2 - 1].len() == 1, "C02:pushed future not held by the new group");
         let s = fub::snap(&mut groups[n2 - 1], 2 * c.caps[last], 0);
         vassert!(s.qlen == 1, "C01:pushed future not marked ready");
+        // nothing but the pushed future may have entered the new group
+        let mut i = 0;
+        while i < 2 * c.caps[last] {
+            if let Some(ch) = v::fub_peek(&groups[n2 - 1], i) {
+                let cid = ch.id as usize;
+                vassert!(cid == id, "C08:a held future was moved into the new group");
+                vassert!(gh.addr[cid % gh::NCH] == 0 || gh.addr[cid % gh::NCH] == ch as *const Fut as usize, "C08:held child moved");
+            }
+            i += 1;
+        }
         check_post_inv(c, &pre, &post, n2, rem2, cursor2, 1);
         vcover!(true, "cover:push_new_group");
     } else {
